@@ -310,7 +310,7 @@ impl Node {
 //@ as: fn became_unnecessary__queued_node_is_dequeued(&self, state: &State)
 //@ tracing: yes
 //@ panics: diverge
-//@ rule R8: `state.recompute_heap.remove(self.packed());` => `vx_diverge();` x1
+//@ rule R8 re: `\w+\s*\.\s*recompute_heap\s*\.\s*remove\((?:[^()]|\([^()]*\))*\)` => `vx_diverge()` x1
 //@ props: C05 C11
 //@ contract:
 //@|     requires !self.necessary(), self.height_in_recompute_heap >= 0,
@@ -405,7 +405,7 @@ impl Node {
 //@ cells: changed_at
 //@ cut_before: let parents = 
 //@ panics: diverge
-//@ rule R8: `self.maybe_handle_after_stabilisation(state);` => `vx_diverge();` x*
+//@ rule R8 re: `self\s*\.\s*maybe_handle_after_stabilisation\(\s*\w+\s*\)` => `vx_diverge()` x*
 //@ props: C06 C09
 //@ contract:
 //@|     requires did_change,
@@ -476,7 +476,7 @@ impl Node {
 //@ rule R8 re: `if let Some\(Kind::BindMain \{ bind, \.\. \}\) = self\.kind\(\) \{\s*let mut all = bind\.all_nodes_created_on_rhs\.borrow_mut\(\);\s*invalidate_nodes_created_on_rhs\(&mut all, state\);\s*\}` => `if let Some(Kind::BindMain { bind, .. }) = self.kind() { vx_invalidate_rhs_nodes_of(bind, state); }` x*
 //@ rule R8: `drop(prop_stack);` => `` x*
 //@ as: fn invalidate_node__a_necessary_node_releases_its_children(&mut self, state: &State)
-//@ rule R8: `self.remove_children(state);` => `vx_diverge();` x*
+//@ rule R8 re: `self\s*\.\s*remove_children\(\s*\w+\s*\)` => `vx_diverge()` x*
 //@ props: C05 C06 C09 C11 C14
 //@ contract:
 //@|     requires old(self).is_valid, old(self).necessary(),
@@ -496,7 +496,7 @@ impl Node {
 //@ rule R8 re: `if let Some\(Kind::BindMain \{ bind, \.\. \}\) = self\.kind\(\) \{\s*let mut all = bind\.all_nodes_created_on_rhs\.borrow_mut\(\);\s*invalidate_nodes_created_on_rhs\(&mut all, state\);\s*\}` => `if let Some(Kind::BindMain { bind, .. }) = self.kind() { vx_invalidate_rhs_nodes_of(bind, state); }` x*
 //@ rule R8: `drop(prop_stack);` => `` x*
 //@ as: fn invalidate_node__a_queued_node_is_dequeued(&mut self, state: &State)
-//@ rule R8: `state.recompute_heap.remove(self.packed());` => `vx_diverge();` x*
+//@ rule R8 re: `\w+\s*\.\s*recompute_heap\s*\.\s*remove\((?:[^()]|\([^()]*\))*\)` => `vx_diverge()` x*
 //@ props: C05 C06 C09 C11 C14
 //@ contract:
 //@|     requires old(self).is_valid, old(self).height_in_recompute_heap >= 0,
@@ -521,7 +521,7 @@ impl Node {
 //@ name: check_if_unnecessary
 //@ as: fn check_if_unnecessary__unnecessary_node_is_torn_down(&self, state: &State)
 //@ panics: diverge
-//@ rule R8: `self.became_unnecessary(state);` => `vx_diverge();` x1
+//@ rule R8 re: `self\s*\.\s*became_unnecessary\(\s*\w+\s*\)` => `vx_diverge()` x1
 //@ props: C05 C11
 //@ contract:
 //@|     requires !self.necessary(),
